@@ -17,7 +17,7 @@ INFO = {
     "outside": ["trees outside the corpus", "histories longer than 2 operations"],
     "stubs": ["memfs for the load / output parts"],
 }
-BUDGET = {"quick": 200, "thorough": 800}
+BUDGET = {"quick": 300, "thorough": 800}
 
 
 def _choice_specs(tid):
